@@ -82,6 +82,9 @@ def gen(rng, tier, index):
         return plan
     contact = name in ("Rattle", "Moreau", "BackwardEuler", "DualStormerVerlet") and rng.random() < 0.5
     x = rng.random()
+    budget_session = name in ("Rattle", "BackwardEuler") and (index // len(ALL)) % 4 == 3
+    if budget_session:
+        contact, x = False, 1.0  # smooth chain scene
     if x < 0.2:
         plan["feature"] = "contact"
         plan["scene_kind"] = "feature_contact"
@@ -111,7 +114,7 @@ def gen(rng, tier, index):
             plan["organic"] = True
     else:
         plan["stop_frac"] = float(rng.uniform(0.2, 0.8))
-    if name in ("Rattle", "BackwardEuler") and plan["scene_kind"] == "chain" and (index // len(ALL)) % 4 == 3:
+    if budget_session:
         # legal knobs: a Newton budget of one or two iterations (organic failure of the first nonlinear step) and, for
         # RATTLE, either of its two Newton variants (chord iteration with a reused factorisation / full Newton)
         spec["options"]["newton_max_iter"] = 1 + (index // (4 * len(ALL))) % 2
